@@ -96,7 +96,7 @@ def agree(req, rep):
     if hyp and not any(t.startswith("thm:") for t in req.get("tags", [])):
         for k in ("C09_sparse", "C09_twoByTwo", "C09_pipeline_inst_partial"):
             req["tags"].append("thm:%s:%s" % (k, "applies" if hyp.get(k) else "hypotheses-not-met"))
-        for k in ("signStable", "signsEqualNonzero", "alike", "cu2quOk", "heightsBelow", "fullMastersFull", "notdefOk", "ordersCover"):
+        for k in ("signStable", "signsEqualNonzero", "alike", "cu2quOk", "cu2quAlike", "heightsBelow", "fullMastersFull", "notdefOk", "ordersCover", "orderTopo"):
             if not hyp.get(k):
                 req["tags"].append("hyp-false:" + k)
     if req["op"] == "needs":
